@@ -18,6 +18,8 @@ leaf takes its start from the fill / the task's end (diamond and overwrite cases
 the day start in DirectCalendar.
 Round 10: a milestone's final start and end are the same term; a store that also runs for summaries after the roll-up
 overwrites it; roll-up cases guarded by a test that is constant after helper inlining (`None is not None`) are dead.
+Round 11: a reset written as a work-list walk (`while q: t = q.pop(); ..`) whose growth step REPLACES the list by `t.children` drops the
+waiting sibling branches (refuted; a correct work-list walk is still undecided, not proved).
 Not decided: start <= end of a leaf from the numeric interaction of day fractions.
 """
 from __future__ import annotations
